@@ -1,5 +1,7 @@
 """gen/extract_safety.py — constants the Safety models (C01/C14) are parameterised by: depth budgets and the
-literal bounds of the guards in front of indexing / arithmetic.  Regenerated from the Rust source on every run."""
+literal bounds of the guards in front of indexing / arithmetic, in the files of this area only (tree walks in
+object/types.rs, object/color.rs, object/function.rs, encoding.rs).  Regenerated from the Rust source on every run.
+The guards of sites owned by other areas (page walk, crypt key length, …) are read by those areas' extractors."""
 import re
 
 
@@ -7,21 +9,7 @@ def extract(g, X):
     ty = X.strip_comments(X.read("pdf/src/object/types.rs"))
     co = X.strip_comments(X.read("pdf/src/object/color.rs"))
     fu = X.strip_comments(X.read("pdf/src/object/function.rs"))
-    cr = X.strip_comments(X.read("pdf/src/crypt.rs"))
-    om = X.strip_comments(X.read("pdf/src/object/mod.rs"))
     en = X.strip_comments(X.read("pdf/src/encoding.rs"))
-
-    def sf_page_depth():
-        b = X.fn_body(ty, "page")
-        m = re.search(r"self\.page_limited\(\s*resolve\s*,\s*page_nr\s*,\s*(\d+)\s*\)", b)
-        # the budget must be tested before anything else and decremented on descent
-        lim = X.fn_body(ty, "page_limited")
-        if not re.search(r"^\s*if\s+depth\s*==\s*0\s*\{\s*bail!", lim):
-            raise ValueError("page_limited no longer starts with the depth test")
-        if not re.search(r"page_limited\(\s*resolve\s*,\s*page_nr\s*-\s*pos\s*,\s*depth\s*-\s*1\s*\)", lim):
-            raise ValueError("page_limited no longer descends with depth - 1")
-        return m.group(1)
-    g.attempt([("sf_page_depth", "N")], "object/types.rs:PageTree::page", sf_page_depth)
 
     def tree_depth():
         vals = re.findall(r"self\.walk_limited\(\s*r\s*,\s*callback\s*,\s*(\d+)\s*,", ty)
@@ -50,11 +38,6 @@ def extract(g, X):
         return m.group(1)
     g.attempt([("cs_depth", "N")], "object/color.rs:ColorSpace::from_primitive", cs_depth)
 
-    def resolve_depth():
-        m = re.search(r"fn\s+resolve\s*\(&self,\s*r:\s*PlainRef\)[^{]*\{\s*self\.resolve_flags\(r,\s*ParseFlags::ANY,\s*(\d+)\)", om)
-        return m.group(1)
-    g.attempt([("resolve_depth", "N")], "object/mod.rs:Resolve::resolve", resolve_depth)
-
     def fn2_guard():
         b = X.fn_body(fu, "from_dict")
         m = re.search(r"if\s+raw\.domain\.len\(\)\s*<\s*(\d+)\s*\{\s*bail!", b)
@@ -76,18 +59,6 @@ def extract(g, X):
         return str(r1), str(r2), str(i1), str(s1)
     g.attempt([("ps_roll_len_guard", "N"), ("ps_roll_mod_guard", "N"), ("ps_index_guard", "N"), ("ps_parse_get", "N")],
               "object/function.rs:PsFunc::exec_inner,PsFunc::parse", ps_guards)
-
-    def crypt():
-        b = X.fn_body(cr, "from_password")
-        mult = set(re.findall(r"default\.length\.map\(\|n\|\s*(\d+)\s*\*\s*n\)", b))
-        div = re.search(r"let\s+key_size\s*=\s*key_bits\s+as\s+usize\s*/\s*(\d+)\s*;", b)
-        v1 = re.search(r"1\s*=>\s*\((\d+),\s*CryptMethod::V2\)", b)
-        mod = re.search(r"if\s+dict\.bits\s*%\s*(\d+)\s*!=\s*0", b)
-        if len(mult) != 1:
-            raise ValueError("length multipliers: %r" % (mult,))
-        return mult.pop(), div.group(1), v1.group(1), mod.group(1)
-    g.attempt([("crypt_len_mult", "N"), ("crypt_bits_div", "N"), ("crypt_v1_bits", "N"), ("sf_crypt_bits_mod", "N")],
-              "crypt.rs:Decoder::from_password", crypt)
 
     def diff():
         b = X.fn_body(en, "from_primitive")
